@@ -39,3 +39,11 @@ CLAIMS["C02"] = dict(
          "the acceptance is max(1e-6, 20 x the error of scipy's own odeint on the same instance)); set_initial_value copies; `aliased` is measured on the real scipy (lsoda aliases in scipy 1.18). "
          "solve_determ is covered for fixed (non-random) parameters only. Integration failure (IntegrationError) is outside the model.",
     technique="Lean 4 induction over the time grid with buffer cells (value | reference) + exact fake-integrator correspondence + independent-reference oracle")
+CLAIMS["C12"] = dict(
+    text="Proved in Lean: every API route (Event with a rate, Event whose single or member transition carries the rate, bare Transition given to add_event, legacy transition=/birth_death= lists, "
+         "births named by origin or destination) appends an event with the same core, and assembly reads only cores, so the assembled equations are syntactically identical (assemble_congr); "
+         "order of events / explicit terms and the explicit-ODE route leave the value of the ODE unchanged in every field and interpretation; comma/space string declarations split into exactly the "
+         "listed names for any separators. Tie and oracle: each random process set is entered twice through independent route assignments, orders and declaration styles on the real code; the two real "
+         "models must agree (get_ode_eqn exact-point, ode/jacobian numerics, multiset of (rate, column) pairs), and each is compared with the driver's assemble.",
+    note="Trusted: Lean kernel + Mathlib; harness generator/printer/interpreter. sympy parsing is validated per case. Expression identity decided at 2 random rational points.",
+    technique="Lean 4 case analysis of constructors/routes + congruence of assembly + permutation invariance; model/code correspondence")
